@@ -360,23 +360,30 @@ def explore(ctx, drv, model, cases, search=False):
     nunsup = 0
     for k, i in enumerate(idx):
         m = mod[k]
+        lib = results[k]
         if "UNSUPPORTED" in m:
-            nunsup += 1
-            continue
+            # trig: the direct trig_simplify outputs may still be comparable when only the constructor's
+            # recursion leaves the modelled fragment
+            mp, sep, _ = m.partition(" ;; ")
+            if sep and "UNSUPPORTED" not in mp:
+                m, lib = mp, lib.partition(" ;; ")[0]
+            else:
+                nunsup += 1
+                continue
         ctx.cov["traces_validated_against_impl"] += 1
         if m.startswith("FAIL") or m.startswith("NOOUTPUT"):
             ndis += 1
             if ndis <= 3:
                 ctx.broken.append({"kind": "correspondence", "name": "C08 model reader", "detail": m + "\n" + cases[i] + "\n" + heads[k]})
             continue
-        if m != results[k]:
+        if m != lib:
             ndis += 1
             if ndis <= 3:
                 ctx.broken.append({"kind": "correspondence", "name": "C08 " + case_fn(cases[i]),
-                                   "detail": "case `%s`\n model:   %s\n library: %s" % (cases[i], m[:600], results[k][:600])})
+                                   "detail": "case `%s`\n model:   %s\n library: %s" % (cases[i], m[:600], lib[:600])})
             ctx.violation("C08/model-mismatch:" + cases[i].split()[0] + ":" + case_fn(cases[i]),
-                          "library and proved model disagree on `%s`: model %s | library %s" % (cases[i], m[:400], results[k][:400]),
-                          {"family": "C08", "case": cases[i], "impl": results[k][:600], "model": m[:600]})
+                          "library and proved model disagree on `%s`: model %s | library %s" % (cases[i], m[:400], lib[:400]),
+                          {"family": "C08", "case": cases[i], "impl": lib[:600], "model": m[:600]})
     ctx.cov.setdefault("model_unsupported_cases", 0)
     ctx.cov["model_unsupported_cases"] += nunsup
     if not search:
@@ -397,7 +404,7 @@ def run(ctx):
     ctx.prove(PROOF_MODULES, OBLIGATIONS)
     drv, model = build(ctx)
     if ctx.tier == "quick":
-        cases = list(CORPUS) + gen_cases(ctx.rng, 2500, 900, 1500)
+        cases = list(CORPUS) + gen_cases(ctx.rng, 1600, 600, 1000)
     else:
         cases = list(CORPUS) + trig_grid() + gen_cases(ctx.rng, 60000, 15000, 30000)
     explore(ctx, drv, model, cases)
